@@ -191,7 +191,8 @@ def _score_task(arg):
         for bn in bid_names:
             b = f.member('Bid', bn)
             level, strain = (b.value - 1) // 5 + 1, 'CDHSN'[(b.value - 1) % 5]
-            for dbl, (x_, xx_) in (('none', (False, False)), ('x', (True, False)), ('xx', (True, True))):
+            # a redoubled contract is represented both ways in the package: (x, xx) = (True, True) by the auction engine, (False, True) by hand
+            for dbl, (x_, xx_) in (('none', (False, False)), ('x', (True, False)), ('xx', (True, True)), ('xx', (False, True))):
                 for v in vuls:
                     for d in players:
                         isvul = v.name == 'BOTH' or v.name == SIDE[d.name]
@@ -231,9 +232,9 @@ def complete_domain(chk):
             raise AnalysisError('C07.R5', q, f'calc_score left the foldable subset: {r["error"]}')
     bad = [b for r in res for b in r['bad']]
     chk.evals(n)
-    chk.floor('C07.R5', 'points of the scoring domain folded', n, 35 * 3 * 4 * 4 * 14)
+    chk.floor('C07.R5', 'points of the scoring domain folded', n, 35 * 4 * 4 * 4 * 14)
     b0 = bad[0] if bad else None
-    chk.require(not bad, 'C07.R5', w, q, 'calc_score on the complete domain (35 bids x 3 doubling states x 4 vulnerabilities x 4 declarers x 14 trick counts)',
+    chk.require(not bad, 'C07.R5', w, q, 'calc_score on the complete domain (35 bids x 3 doubling states (redoubled in both representations) x 4 vulnerabilities x 4 declarers x 14 trick counts)',
                 f'all {n} points of the domain score what the duplicate scoring table gives, from declarer\'s side and with the vulnerability of declarer\'s side',
                 (f'{b0[0]}{"XX" if b0[1] == "xx" else "X" if b0[1] == "x" else ""} by {b0[3]}, board vulnerability {b0[2]}, {b0[4]} tricks: calc_score = {b0[5]}, '
                  f'the duplicate scoring table gives {b0[6]}') if b0 else '')
